@@ -8,6 +8,7 @@ KNOWN_TEXT = {
     "C04-D8-multi-publish-stranding": "multi producer with >= 2 publishing threads: a range published before an earlier range is stranded; after drain the handlers miss the tail",
     "C14-D8-multi-publish-stranding": "multi producer with >= 2 publishing threads: after all claimants published the cursor stays below the highest claimed sequence",
     "C06-D8-multi-publish-stall": "multi producer with >= 2 publishing threads: stranded publish / low-watermark regress leaves producers spinning in next() and handlers parked forever",
+    "C14-D13-sequencer-clones-overlap": "claims made through two CLONES of one MultiProducerSequencer (the one-producer-per-clone pattern of the module documentation) return the same range: every clone keeps a private high watermark",
     "C05-D9-same-stage-mutable-handler": "a mutable handler sharing a barrier stage with another handler accesses the same slot concurrently without ordering",
 }
 
@@ -78,6 +79,7 @@ def run_ring_property(pid, props_file, gen, rule, extra_trusted=(), assumptions=
             elif rep_fail is None:
                 rep_fail = (tr, why)
     slots_phase(run, pid)
+    lag_phase(run, pid)
     extra_dist = extra_phase(run) if extra_phase else None
     if rep_fail is not None and not run.violations and val_fail is None:
         tr, why = rep_fail
@@ -114,6 +116,57 @@ def run_ring_property(pid, props_file, gen, rule, extra_trusted=(), assumptions=
                               "the Ordering arguments the code really passed (release sequences through RMWs, SeqCst as AcqRel, mutex unlock -> lock)",
                               "monitors (oracles) on the logged trace are Python code in bin/ringlib.py"] + list(extra_trusted),
                assumptions=list(assumptions))
+
+
+def lag_phase(run, pid):
+    """REAL-TIME probes of back pressure and payload through the builder's OTHER entry points (harness/ds family lagprobe, plain build, real
+    threads): RustDisruptorBuilder::new(custom data provider of any size, also not a power of two) and with_ring_buffer, with_single_producer() /
+    with_multi_producer() (the builder computes the sequencer's size) and explicit sequencers, one or two stages, both wait strategies. The last
+    stage stalls inside its first call: meanwhile the producer may fill sequence q only if q - N <= 0 (every last-stage handler has returned
+    from q - N); afterwards every event must arrive in order with the payload written for its sequence (as transformed by stage 1)."""
+    if pid not in ("C04", "C05", "C13") or run.violations: return
+    b, log = cargo_build("ds")
+    if not b:
+        fatal(run, "cargo build of harness/ds against /repo failed", log)
+    rng = run.rng
+    probes = []
+    def mk(size, multi, route):
+        return (size, multi, rng.randrange(2), route, rng.choice([1, 2, 2]), rng.randrange(3 * size, 5 * size + 3))
+    probes.append(mk(rng.choice([3, 5, 6, 7, 12]), 0, 1))          # custom provider, not a power of two, builder-computed size
+    probes.append(mk(rng.choice([3, 5, 6, 7, 12]), 0, 0))          # the same with an explicit sequencer
+    probes.append(mk(8, 1, 3))                                     # RingBuffer<u64, 8>, with_multi_producer()
+    probes.append(mk(rng.choice([4, 16]), rng.randrange(2), 1))    # custom provider, power of two
+    if run.thorough:
+        for size in (3, 5, 6, 7, 12, 24):
+            for route in (0, 1): probes.append(mk(size, 0, route))
+        for size, route in ((8, 2), (8, 3), (64, 2), (64, 3), (4, 0), (4, 1), (16, 1)):
+            for multi in (0, 1): probes.append(mk(size, multi, route))
+    n_ok = 0
+    for (size, multi, block, route, stages, n) in probes:
+        ln = f"lagprobe {size} {multi} {block} {route} {stages} {n}"
+        rc, outs, err = run_lines(b, [ln], line_timeout=30)
+        run.cov["evaluations"] += 1
+        o = outs[0] if outs else "<no answer>"
+        why = None
+        try:
+            st, during, seen, bad, ooo = [int(x) for x in o.split()]
+            want_seen = n if multi else n - 1          # single producer: sequence 0 is never delivered (finding D7, judged by C04's monitors)
+            if st != 1: why = "write / drain / join did not all return within 6 s"
+            elif during > size: why = (f"while the last stage was stalled inside its FIRST call (it had returned from nothing) the producer filled sequence {during} of a ring of {size} slots: "
+                                       f"sequence {during} shares its slot with sequence {during - size} >= 1, which the stalled stage has not handled yet (no stage may be lapped)")
+            elif bad: why = f"{bad} events reached the last stage with a payload other than the one written for their sequence (as transformed by the first stage)"
+            elif ooo: why = f"{ooo} calls of the last stage were not for the successor of the previous sequence"
+            elif seen != want_seen: why = f"the last stage saw {seen} events, {want_seen} were published and drained"
+        except ValueError:
+            why = f"unparsable answer {o[:80]!r}"
+        if why is None:
+            n_ok += 1; continue
+        run.violation({"kind": "property-oracle-failed-on-implementation", "what": f"ring of {size} slots, {'multi' if multi else 'single'} producer, {'blocking' if block else 'spinning'} wait, "
+                       f"{'builder-computed sequencer size' if route % 2 else 'explicit sequencer'}, {'RingBuffer' if route >= 2 else 'custom data provider (sequence % len)'}, {stages} stage(s), {n} events: " + why,
+                       "harness_line": ln, "got": o, "lag": True, "size": size, "multi": multi, "n": n,
+                       "rerun": f"cd /verif && python3 bin/check.py {pid} --replay <this file>"})
+        break
+    run.cov["builder_entry_point_probes"] = {"issued": len(probes), "as_required": n_ok, "sizes": sorted({p[0] for p in probes})}
 
 
 def slots_phase(run, pid):
@@ -182,6 +235,17 @@ def validate_trace(tr):
 def replay_ring(pid):
     def replay(path):
         d = json.load(open(path))
+        if d.get("lag"):
+            b, log = cargo_build("ds")
+            rc, outs, err = run_lines(b, [d["harness_line"]], line_timeout=30)
+            got = outs[0] if outs else "<no answer>"
+            print("stored:", d["got"], "  now:", got)
+            try:
+                st, during, seen, bad, ooo = [int(x) for x in got.split()]
+                isbad = st != 1 or during > d["size"] or bad or ooo or seen != (d["n"] if d["multi"] else d["n"] - 1)
+            except ValueError:
+                isbad = True
+            print("REPRODUCED" if isbad else "not reproduced"); return 1 if isbad else 0
         if d.get("slots"):
             b, log = cargo_build("ds")
             rc, outs, err = run_lines(b, [d["harness_line"]], line_timeout=60)
